@@ -17,8 +17,8 @@ var CollateFuncs = map[string]func(string, string) int{
 	"binary": strings.Compare,
 	"rtrim": func(a, b string) int {
 		return strings.Compare(
-			strings.TrimRight(a, " \t\r\n"),
-			strings.TrimRight(b, " \t\r\n"),
+			strings.TrimRight(a, " "),
+			strings.TrimRight(b, " "),
 		)
 	},
 	"nocase": func(a, b string) int {
